@@ -504,8 +504,9 @@ func verifC09Rank(rx, ry, rz int) {}
 //@     n.Start <= n.Children[i].Start && n.Children[i].Start + n.Children[i].Len <= n.Start + n.Len
 
 // chain: each child starts where the previous one ends (no gap, no overlap).
-//@ pure func chain(n *KeyHeaderNode) bool = forall i int :: {n.Children[i], n.Children[i+1]} 0 <= i < len(n.Children) - 1 ==>
-//@     n.Children[i+1].Start == n.Children[i].Start + n.Children[i].Len
+// (Written over pairs (i, k) with k == i+1 so that the trigger {Children[i], Children[k]} has no arithmetic in it.)
+//@ pure func chain(n *KeyHeaderNode) bool = forall i int, k int :: {n.Children[i], n.Children[k]} 0 <= i && k == i + 1 && k < len(n.Children) ==>
+//@     n.Children[k].Start == n.Children[i].Start + n.Children[i].Len
 
 // ends: the first child starts at the parent's first key and the last child ends at its last key.
 //@ pure func ends(n *KeyHeaderNode) bool = (len(n.Children) == 0 ==> n.Len == 0) &&
@@ -516,8 +517,8 @@ func verifC09Rank(rx, ry, rz int) {}
 //@ pure func distinctKids(n *KeyHeaderNode) bool = (forall i int :: 0 <= i < len(n.Children) ==> ref(n.Children[i]) != ref(n)) &&
 //@     (forall i int, k int :: 0 <= i < k < len(n.Children) ==> ref(n.Children[i]) != ref(n.Children[k]))
 
-// tiled: the children of n tile n's key range (opaque to the solver until needed).
-//@ rec func tiled(n *KeyHeaderNode) bool = childOK(n) && chain(n) && ends(n)
+// tiled: the children of n tile its key range.
+//@ pure func tiled(n *KeyHeaderNode) bool = childOK(n) && chain(n) && ends(n)
 
 //@ pure func headerFieldsOK(fields []*Field, keys []Key) bool = forall i int :: 0 <= i < len(fields) ==>
 //@     fields[i] != nil && fields[i].idx >= 0 && !fields[i].IsTuple && fields[i].proj == keys[0].k.proj
@@ -557,10 +558,10 @@ func verifC09Rank(rx, ry, rz int) {}
 //@     decreases rlen() - idx()
 
 // The top level of the header tiles all the keys, in order.
-//@ pure func topTiles(top []*KeyHeaderNode, n int) bool =
-//@     (forall i int :: 0 <= i < len(top) ==> top[i] != nil && top[i].Len >= 1 && top[i].Field == 0 && 0 <= top[i].Start && top[i].Start + top[i].Len <= n) &&
-//@     (forall i int :: {top[i], top[i+1]} 0 <= i < len(top) - 1 ==> top[i+1].Start == top[i].Start + top[i].Len) &&
-//@     (len(top) > 0 ==> top[0].Start == 0 && top[len(top)-1].Start + top[len(top)-1].Len == n)
+//@ pure func topKids(top []*KeyHeaderNode, n int) bool = forall i int :: 0 <= i < len(top) ==>
+//@     top[i] != nil && top[i].Len >= 1 && top[i].Field == 0 && 0 <= top[i].Start && top[i].Start + top[i].Len <= n
+//@ pure func topChain(top []*KeyHeaderNode) bool = forall i int, k int :: {top[i], top[k]} 0 <= i && k == i + 1 && k < len(top) ==> top[k].Start == top[i].Start + top[i].Len
+//@ pure func topEnds(top []*KeyHeaderNode, n int) bool = len(top) > 0 && top[0].Start == 0 && top[len(top)-1].Start + top[len(top)-1].Len == n
 
 //@ func NewKeyHeader(keys []Key) (h *KeyHeader)
 //@   props C16
@@ -569,4 +570,6 @@ func verifC09Rank(rx, ry, rz int) {}
 //@   ensures h != nil && fresh(h)
 //@   ensures len(keys) == 0 ==> len(h.Keys) == 0 && len(h.Top) == 0
 //@   ensures len(keys) > 0 ==> h.Keys === keys && len(h.Levels) == flatLen(old(keys[0].k.proj))
-//@   ensures len(keys) > 0 && len(h.Levels) > 0 ==> topTiles(h.Top, len(keys))
+//@   ensures len(keys) > 0 && len(h.Levels) > 0 ==> topKids(h.Top, len(keys))
+//@   ensures len(keys) > 0 && len(h.Levels) > 0 ==> topChain(h.Top)
+//@   ensures len(keys) > 0 && len(h.Levels) > 0 ==> topEnds(h.Top, len(keys))
